@@ -23,7 +23,9 @@ Scope notes, stated once:
 
 B. Describe. `Model/Describe.lean` mirrors the filters of field_filter.go; the theorems
 are non-interference statements: values that agree on the visible positions and have equal
-length give identical filter output; plus totality (no input makes a filter panic).
+length give identical filter output; plus totality (no input makes a filter panic). The track
+filters parse the text they are given (`newTrackData(in, &track)`), so they are pure functions
+of the text: accepted by the track grammar ⇒ account number masked, rejected ⇒ unchanged.
 -/
 import Iso8583.Lemmas.Errors
 import Iso8583.Lemmas.Describe
@@ -47,7 +49,7 @@ def noUnknown (s : Site) : Bool :=
 
 theorem no_unknown_class : Gen.errorSites.all noUnknown = true := by decide +kernel
 
-/-- Open finding KF-C18-1: `Composite.unpackSubfieldsByTag` prints a tag *decoded from the
+/-- Finding KF-C18-1 (repaired by c8ad75b): `Composite.unpackSubfieldsByTag` prints a tag *decoded from the
 wire* that is not in the spec; a BER-TLV tag has no length limit (and a fixed-width tag is as
 long as `Tag.Length` says), so a corrupted length byte can make the complete value of a
 subfield appear, in hex, as "the tag". These two sites are excluded below. -/
@@ -57,7 +59,7 @@ def knownLeak1 (s : Site) : Bool :=
       | .arg _ .value _ => true
       | _ => false
 
-/-- Open finding KF-C18-2: `hexVarPrefixer.DecodeLength` returns `strconv.ParseUint`'s error,
+/-- Finding KF-C18-2 (repaired by 8747e88): `hexVarPrefixer.DecodeLength` returns `strconv.ParseUint`'s error,
 which quotes the `2·digits` characters found at the prefix position: up to 12 bytes of wire
 data for `Hex.LLLLLL` (8 for `Hex.LLLL`). After a dropped or inserted byte those are the
 contents of a neighbouring field. -/
@@ -73,7 +75,13 @@ def knownLeak (s : Site) : Bool := knownLeak1 s || knownLeak2 s
 window and separates them by literal text -/
 def NoSiteLeaks : Prop := Gen.errorSites.all (fun s => s.ok (window - 1)) = true
 
-/-- proved part: every site except the three of the two open findings -/
+/-- Full strength: holds since the two findings were repaired in /repo (KF-C18-1 by c8ad75b,
+`%.6v`; KF-C18-2 by 8747e88, SafeError). If either returns, this `decide` fails. -/
+theorem no_site_leaks : NoSiteLeaks := by
+  unfold NoSiteLeaks
+  decide +kernel
+
+/-- weaker form kept from the time the findings were open: every site except theirs -/
 theorem no_site_leaks_partial :
     Gen.errorSites.all (fun s => knownLeak s || s.ok (window - 1)) = true := by decide +kernel
 
@@ -131,6 +139,12 @@ built from the library's error sites contains eight consecutive value-derived un
 theorem error_texts_no_leak_partial (s : Site) (hs : s ∈ safeSites) (hv : s.hidden = false)
     (ch : Chain) (g : Gen safeSites s.segs ch) : NoLongRun (window - 1) (render ch) :=
   render_taint_bound safeSites (window - 1) safeSites_ok s hs hv ch g
+
+/-- C18-A, full strength: no error text built from the library's error sites contains eight
+consecutive value-derived units. -/
+theorem error_texts_no_leak (s : Site) (hs : s ∈ Gen.errorSites) (hv : s.hidden = false)
+    (ch : Chain) (g : Gen Gen.errorSites s.segs ch) : NoLongRun (window - 1) (render ch) :=
+  render_taint_bound Gen.errorSites (window - 1) no_site_leaks s hs hv ch g
 
 /-! ## B. Describe -/
 
@@ -244,7 +258,7 @@ theorem filters_total (name : String) (inp : Bytes) : filterByName name inp ≠ 
     · rename_i t _; obtain ⟨o, ho⟩ := hpan t.pan; simp [ho]
   · simp only [ne_eq, Option.some.injEq, track3Filter]
     split
-    · simp
+    · obtain ⟨o, ho⟩ := hpan emptyT3.pan; simp [ho]
     · rename_i t _; obtain ⟨o, ho⟩ := hpan t.pan; simp [ho]
   · simp
 
@@ -285,30 +299,25 @@ theorem parseTrack2_wf {pan exp code dd : Bytes} {sep : Byte} (w : WF2 pan exp c
 
 /-- `Track2Filter` on well-formed track 2 data held by a field whose pack/unpack returns its
 value: the account number goes through `PANFilter`, everything else is reprinted. -/
-theorem track2_filter_value {pan exp code dd : Bytes} {sep : Byte} (w : WF2 pan exp code dd sep) (inp : Bytes) :
-    track2Filter panFilter (.value (track2Text pan exp code dd sep)) inp =
+theorem track2_filter_value {pan exp code dd : Bytes} {sep : Byte} (w : WF2 pan exp code dd sep) :
+    track2Filter panFilter (track2Text pan exp code dd sep) =
       (do let p ← panFilter pan; pure (p ++ [sep] ++ exp ++ code ++ trimSpace dd)) := by
-  have hne : (track2Text pan exp code dd sep).isEmpty = false := by
-    have := w.panLen
-    cases hp : pan with
-    | nil => simp [hp] at this
-    | cons c r => simp [track2Text]
   have hcode : code.isEmpty = false := by
     have := w.codeLen
     cases hc : code with
     | nil => simp [hc] at this
     | cons c r => rfl
-  simp only [track2Filter, hne, Bool.false_eq_true, if_false, parseTrack2_wf w]
+  simp only [track2Filter, parseTrack2_wf w]
   obtain ⟨o, ho⟩ := maskFilter_isOk Gen.panFistIndex Gen.panLastIndex (bytesOf Gen.panPattern) pan
   simp [panFilter, ho, formatTrack2, hcode]
 
-/-- `track_masked` (track 2): two well-formed track-2 texts that differ only inside the hidden
-middle of the account number are printed identically. -/
+/-- `track_masked` (track 2, assembled texts): two well-formed track-2 texts that differ only
+inside the hidden middle of the account number are printed identically. -/
 theorem track2_masked {a b exp code dd : Bytes} {sep : Byte}
     (wa : WF2 a exp code dd sep) (wb : WF2 b exp code dd sep)
-    (hl : 8 ≤ a.length) (h : AgreeVisible 4 4 a b) (ia ib : Bytes) :
-    track2Filter panFilter (.value (track2Text a exp code dd sep)) ia =
-    track2Filter panFilter (.value (track2Text b exp code dd sep)) ib := by
+    (hl : 8 ≤ a.length) (h : AgreeVisible 4 4 a b) :
+    track2Filter panFilter (track2Text a exp code dd sep) =
+    track2Filter panFilter (track2Text b exp code dd sep) := by
   rw [track2_filter_value wa, track2_filter_value wb, pan_masked a b wa.panDigits wb.panDigits hl h]
 
 /-- well-formed track 3 components -/
@@ -332,24 +341,18 @@ theorem parseTrack3_wf {fc pan dd : Bytes} (w : WF3 fc pan dd) :
   simp only [Bool.or_eq_true, decide_eq_true_eq, h1, if_false, bne_self_eq_false, Bool.false_eq_true,
     w.ddOK, Bool.not_true, take_append_len _ _ 2 w.fcLen, drop_append_len _ _ 2 w.fcLen]
 
-theorem track3_filter_value {fc pan dd : Bytes} (w : WF3 fc pan dd) (inp : Bytes) :
-    track3Filter panFilter (.value (track3Text fc pan dd)) inp =
+theorem track3_filter_value {fc pan dd : Bytes} (w : WF3 fc pan dd) :
+    track3Filter panFilter (track3Text fc pan dd) =
       (do let p ← panFilter pan
           pure (fc ++ p ++ [eqSign] ++ (if trimSpace dd = [eqSign] then [] else trimSpace dd))) := by
-  have hne : (track3Text fc pan dd).isEmpty = false := by
-    have := w.fcLen
-    cases hp : fc with
-    | nil => simp [hp] at this
-    | cons c r => simp [track3Text]
-  simp only [track3Filter, hne, Bool.false_eq_true, if_false, parseTrack3_wf w]
+  simp only [track3Filter, parseTrack3_wf w]
   obtain ⟨o, ho⟩ := maskFilter_isOk Gen.panFistIndex Gen.panLastIndex (bytesOf Gen.panPattern) pan
   simp [panFilter, ho, formatTrack3]
 
-/-- `track_masked` (track 3) -/
+/-- `track_masked` (track 3, assembled texts) -/
 theorem track3_masked {fc a b dd : Bytes} (wa : WF3 fc a dd) (wb : WF3 fc b dd)
-    (hl : 8 ≤ a.length) (h : AgreeVisible 4 4 a b) (ia ib : Bytes) :
-    track3Filter panFilter (.value (track3Text fc a dd)) ia =
-    track3Filter panFilter (.value (track3Text fc b dd)) ib := by
+    (hl : 8 ≤ a.length) (h : AgreeVisible 4 4 a b) :
+    track3Filter panFilter (track3Text fc a dd) = track3Filter panFilter (track3Text fc b dd) := by
   rw [track3_filter_value wa, track3_filter_value wb, pan_masked a b wa.panDigits wb.panDigits hl h]
 
 /-! track 1 (expiry and service code present; the `^` alternatives are covered by channel X) -/
@@ -403,8 +406,8 @@ theorem parseTrack1_wf {fc : Byte} {pan name exp code dd : Bytes} (w : WF1 fc pa
   simp only [hse', hsc', hexpnil, Bool.not_false, w.expValid, Bool.not_true, Bool.and_false,
     Bool.false_eq_true, if_false, skipT]
 
-theorem track1_filter_value {fc : Byte} {pan name exp code dd : Bytes} (w : WF1 fc pan name exp code dd) (inp : Bytes) :
-    track1Filter panFilter (.value (track1Text fc pan name exp code dd)) inp =
+theorem track1_filter_value {fc : Byte} {pan name exp code dd : Bytes} (w : WF1 fc pan name exp code dd) :
+    track1Filter panFilter (track1Text fc pan name exp code dd) =
       (do let p ← panFilter pan
           pure ([fc] ++ p ++ [caret] ++ skipT name ++ [caret] ++ exp ++ code ++ skipT dd)) := by
   have hcode : code.isEmpty = false := by
@@ -412,26 +415,93 @@ theorem track1_filter_value {fc : Byte} {pan name exp code dd : Bytes} (w : WF1 
     cases hc : code with
     | nil => simp [hc] at this
     | cons c r => rfl
-  have hne : (track1Text fc pan name exp code dd).isEmpty = false := by simp [track1Text]
-  simp only [track1Filter, hne, Bool.false_eq_true, if_false, parseTrack1_wf w]
+  simp only [track1Filter, parseTrack1_wf w]
   obtain ⟨o, ho⟩ := maskFilter_isOk Gen.panFistIndex Gen.panLastIndex (bytesOf Gen.panPattern) pan
   simp [panFilter, ho, formatTrack1, hcode]
 
-/-- `track_masked` (track 1): two well-formed track-1 texts that differ only inside the hidden
-middle of the account number are printed identically. -/
+/-- `track_masked` (track 1, assembled texts) -/
 theorem track1_masked {fc : Byte} {a b name exp code dd : Bytes}
     (wa : WF1 fc a name exp code dd) (wb : WF1 fc b name exp code dd)
-    (hl : 8 ≤ a.length) (h : AgreeVisible 4 4 a b) (ia ib : Bytes) :
-    track1Filter panFilter (.value (track1Text fc a name exp code dd)) ia =
-    track1Filter panFilter (.value (track1Text fc b name exp code dd)) ib := by
+    (hl : 8 ≤ a.length) (h : AgreeVisible 4 4 a b) :
+    track1Filter panFilter (track1Text fc a name exp code dd) =
+    track1Filter panFilter (track1Text fc b name exp code dd) := by
   rw [track1_filter_value wa, track1_filter_value wb, pan_masked a b wa.panDigits wb.panDigits hl h]
 
-/-- the filters fail *open*: when the field's text is not accepted by the track parser
-(`ErrCreatingNewTrackData`) the input is returned unmasked. (Track 2 data without
-discretionary data, or with month 00/13..99, is such a text — see the evidence note.) -/
-theorem track_filter_fails_open (inp v : Bytes) (hv : v.isEmpty = false) (h : parseTrack2 v = none) :
-    track2Filter panFilter (.value v) inp = .ok inp := by
-  simp [track2Filter, hv, h]
+/-! ### every text: accepted ⇒ masked, rejected ⇒ unchanged
+
+Since `newTrackData` parses the text itself, the filters are pure functions of the text, and
+the two cases below are exhaustive for **every** input: a text the track grammar accepts is
+reprinted with the account number masked; any other text is returned unchanged. -/
+
+def maskedPan (pan : Bytes) : Bytes := pan.take 4 ++ stars ++ pan.drop (pan.length - 4)
+
+/-- every text accepted by the track 2 grammar whose account number has eight or more digits is
+printed with exactly the first four and last four digits of it, whatever the field's spec -/
+theorem track2_accepted_masked {v : Bytes} {t : T2} (h : parseTrack2 v = some t) (hl : 8 ≤ t.pan.length) :
+    track2Filter panFilter v = .ok (formatTrack2 { t with pan := maskedPan t.pan }) := by
+  simp [track2Filter, h, pan_masked_value t.pan (parseTrack2_pan h).1 hl, maskedPan]
+
+theorem track1_accepted_masked {v : Bytes} {t : T1} (h : parseTrack1 v = some t) (hl : 8 ≤ t.pan.length) :
+    track1Filter panFilter v = .ok (formatTrack1 { t with pan := maskedPan t.pan }) := by
+  simp [track1Filter, h, pan_masked_value t.pan (parseTrack1_pan h).1 hl, maskedPan]
+
+theorem track3_accepted_masked {v : Bytes} {t : T3} (h : parseTrack3 v = some t) (hl : 8 ≤ t.pan.length) :
+    track3Filter panFilter v = .ok (formatTrack3 { t with pan := maskedPan t.pan }) := by
+  simp [track3Filter, h, pan_masked_value t.pan (parseTrack3_pan h).1 hl, maskedPan]
+
+/-- `track_masked`, general form: two accepted texts whose components differ only in the account
+number, the account numbers agreeing on the visible positions, are printed identically -/
+theorem track2_noninterference {va vb : Bytes} {ta tb : T2}
+    (ha : parseTrack2 va = some ta) (hb : parseTrack2 vb = some tb)
+    (hrest : { ta with pan := [] } = { tb with pan := [] })
+    (hl : 8 ≤ ta.pan.length) (hag : AgreeVisible 4 4 ta.pan tb.pan) :
+    track2Filter panFilter va = track2Filter panFilter vb := by
+  have hlb : 8 ≤ tb.pan.length := hag.1 ▸ hl
+  rw [track2_accepted_masked ha hl, track2_accepted_masked hb hlb]
+  have hm : maskedPan ta.pan = maskedPan tb.pan := by
+    simp only [maskedPan, hag.2.1, hag.2.2]
+  simp only [T2.mk.injEq] at hrest
+  simp [formatTrack2, hm, hrest.2.1, hrest.2.2.1, hrest.2.2.2.1, hrest.2.2.2.2]
+
+theorem track1_noninterference {va vb : Bytes} {ta tb : T1}
+    (ha : parseTrack1 va = some ta) (hb : parseTrack1 vb = some tb)
+    (hrest : { ta with pan := [] } = { tb with pan := [] })
+    (hl : 8 ≤ ta.pan.length) (hag : AgreeVisible 4 4 ta.pan tb.pan) :
+    track1Filter panFilter va = track1Filter panFilter vb := by
+  have hlb : 8 ≤ tb.pan.length := hag.1 ▸ hl
+  rw [track1_accepted_masked ha hl, track1_accepted_masked hb hlb]
+  have hm : maskedPan ta.pan = maskedPan tb.pan := by
+    simp only [maskedPan, hag.2.1, hag.2.2]
+  simp only [T1.mk.injEq] at hrest
+  simp [formatTrack1, hm, hrest.1, hrest.2.2.1, hrest.2.2.2.1, hrest.2.2.2.2.1, hrest.2.2.2.2.2]
+
+theorem track3_noninterference {va vb : Bytes} {ta tb : T3}
+    (ha : parseTrack3 va = some ta) (hb : parseTrack3 vb = some tb)
+    (hrest : { ta with pan := [] } = { tb with pan := [] })
+    (hl : 8 ≤ ta.pan.length) (hag : AgreeVisible 4 4 ta.pan tb.pan) :
+    track3Filter panFilter va = track3Filter panFilter vb := by
+  have hlb : 8 ≤ tb.pan.length := hag.1 ▸ hl
+  rw [track3_accepted_masked ha hl, track3_accepted_masked hb hlb]
+  have hm : maskedPan ta.pan = maskedPan tb.pan := by
+    simp only [maskedPan, hag.2.1, hag.2.2]
+  simp only [T3.mk.injEq] at hrest
+  simp [formatTrack3, hm, hrest.1, hrest.2.2]
+
+/-- every text the track 1 / track 2 grammar rejects is returned unchanged
+(`ErrCreatingNewTrackData`): malformed track text is outside the property ("well-formed track
+data"); e.g. track 2 without discretionary data, or with month 00 / 13..99 — see the evidence
+note. For track 3 `SetBytes` swallows the error: a rejected text is printed as the empty track
+`"="`, showing nothing of it. -/
+theorem track_rejected_unchanged (v : Bytes) :
+    (parseTrack1 v = none → track1Filter panFilter v = .ok v) ∧
+    (parseTrack2 v = none → track2Filter panFilter v = .ok v) ∧
+    (parseTrack3 v = none → track3Filter panFilter v = .ok [eqSign]) := by
+  refine ⟨?_, ?_, ?_⟩
+  · intro h; simp [track1Filter, h]
+  · intro h; simp [track2Filter, h]
+  · intro h
+    have : panFilter [] = .ok [] := by decide
+    simp [track3Filter, h, emptyT3, this, formatTrack3]
 
 /-! ## non-vacuity -/
 
@@ -446,11 +516,14 @@ example : demoPanA ≠ demoPanB ∧ AgreeVisible 4 4 demoPanA demoPanB ∧ panFi
 /-- "2512", "101", "123" : 4000340000000506=2512101123 is well-formed track 2 -/
 example : WF2 demoPanA [50, 53, 49, 50] [49, 48, 49] [49, 50, 51] eqSign :=
   ⟨by decide, by decide, by decide, by decide, by decide, by decide, by decide, by decide, by decide⟩
-example : track2Filter panFilter (.value (track2Text demoPanA [50, 53, 49, 50] [49, 48, 49] [49, 50, 51] eqSign)) [] =
+example : track2Filter panFilter (track2Text demoPanA [50, 53, 49, 50] [49, 48, 49] [49, 50, 51] eqSign) =
     .ok ([52, 48, 48, 48, 42, 42, 42, 42, 48, 53, 48, 54] ++ [61] ++ [50, 53, 49, 50] ++ [49, 48, 49] ++ [49, 50, 51]) := by
   decide
-/-- track 2 without discretionary data is returned unmasked (fail-open, outside the grammar) -/
-example : track2Filter panFilter (.value (demoPanA ++ [61, 50, 53, 49, 50, 49, 48, 49])) [1, 2, 3] = .ok [1, 2, 3] := by
+/-- track 2 without discretionary data is returned unmasked (rejected by the grammar) -/
+example : track2Filter panFilter (demoPanA ++ [61, 50, 53, 49, 50, 49, 48, 49]) = .ok (demoPanA ++ [61, 50, 53, 49, 50, 49, 48, 49]) := by
+  decide
+/-- the empty text is rejected and printed as it is -/
+example : track1Filter panFilter [] = .ok [] ∧ track2Filter panFilter [] = .ok [] ∧ track3Filter panFilter [] = .ok [eqSign] := by
   decide
 /-- "B" pan "^DOE/JOHN^" "2512" "101" "123" is well-formed track 1 -/
 example : WF1 66 demoPanA [68, 79, 69, 47, 74, 79, 72, 78] [50, 53, 49, 50] [49, 48, 49] [49, 50, 51] :=
